@@ -8,7 +8,7 @@ from vlib.unit import Unit, REPO
 NODES = 'crates/oq3_syntax/src/ast/generated/nodes.rs'
 NEXT = 'crates/oq3_syntax/src/ast/node_ext.rs'
 EXT = 'crates/oq3_syntax/src/ast/expr_ext.rs'
-P = ['C05', 'C06', 'C03']
+P = ['C05', 'C06', 'C03', 'C09']
 FUEL = ('{', 'after', 'proof { reveal_with_fuel(typed, 6); }')
 
 
@@ -27,10 +27,14 @@ def build():
     g.item('enum', 'Stmt')
     n = U.file(NEXT)
     n.item('enum', 'BlockOrStmt')
+    skf = U.file('crates/oq3_parser/src/syntax_kind/syntax_kind_enum.rs')
+    skf.item('enum', 'SyntaxKind')
+    skf.item('macro_rules', 'T')
+    U.file('crates/oq3_syntax/src/ast/type_ext.rs').item('enum', 'ScalarTypeKind')
     U.prelude('contracts/astx.prelude.rs')
     # `impl AstNode for X` of generated/nodes.rs: `fn syntax(&self) -> &SyntaxNode { &self.syntax }` (can_cast / cast are
     # modelled by of_kid; these types are never the N of support::children in this unit)
-    for ty in ['IfStmt', 'WhileStmt', 'ForStmt', 'BinExpr', 'RangeExpr', 'AssignmentStmt']:
+    for ty in ['IfStmt', 'WhileStmt', 'ForStmt', 'BinExpr', 'RangeExpr', 'AssignmentStmt', 'Gate', 'GateCallExpr', 'CallExpr', 'IndexedIdentifier', 'IndexExpr', 'ScalarType']:
         U.raw('''impl AstNode for %s {
     uninterp spec fn of_kid(k: Kid) -> Option<%s>;
     open spec fn sp_syntax(&self) -> SyntaxNode { self.syntax }
@@ -81,6 +85,41 @@ ensures r == (if %s.len() == 3 { Some(bors(%s[2])) } else { None::<BlockOrStmt> 
     e.impl('ast::AssignmentStmt', [
         ('rhs', dict(H, ret='r', spec='ensures assign_shape(%s) ==> r == Some(%s[1]->E_0),      //@C05,C06:assignment-value' % (KS, KS))),
     ])
+    TP = 'typed::<ParamList>(%s)' % KS
+    e.impl('ast::Gate', [
+        ('angles_and_or_qubits', dict(H, ret='r', spec='ensures r.0 == (if %s.len() > 0 { Some(%s[0]) } else { None::<ParamList> }), r.1 == (if %s.len() > 1 { Some(%s[1]) } else { None::<ParamList> }),' % (TP, TP, TP, TP))),
+        # angles are optional and come before the qubits
+        ('angle_params', dict(H, ret='r', spec='ensures gate_shape(%s) ==> r == (if %s.len() == 2 { Some(%s[0]) } else { None::<ParamList> }),      //@C05,C06:gate-angle-parameters' % (KS, TP, TP))),
+        ('qubit_params', dict(H, ret='r', spec='ensures gate_shape(%s) ==> r == Some(%s.last()),      //@C05,C06:gate-qubit-parameters' % (KS, TP))),
+    ])
+    IDF = 'ensures callee_first(%s) ==> r == (if %s[0]->E_0 is Identifier { Some(%s[0]->E_0->Identifier_0) } else { None::<Identifier> }),      //@C05,C06:callee-name' % (KS, KS, KS)
+    e.impl('ast::GateCallExpr', [('identifier', dict(H, ret='r', spec=IDF))])
+    e.impl('ast::CallExpr', [('identifier', dict(H, ret='r', spec=IDF))])
+    e.impl('ast::IndexExpr', [
+        ('base', dict(H, ret='r', spec='ensures callee_first(%s) ==> r == Some(%s[0]->E_0),      //@C05,C06:indexed-expression' % (KS, KS))),
+    ])
+    # ---- type keyword -> ScalarTypeKind (table generated from the variant names: ScalarTypeKind::X <-> SyntaxKind::X_TY, qubit is a keyword)
+    tf = U.file('crates/oq3_syntax/src/ast/type_ext.rs')
+    import re as _re
+    tsrc = open(os.path.join(REPO, 'crates/oq3_syntax/src/ast/type_ext.rs')).read()
+    en = tsrc[tsrc.index('pub enum ScalarTypeKind'):]
+    en = en[:en.index('}')]
+    variants = [v for v in _re.findall(r'(?m)^\s*(\w+),', en)]
+    sk = open(os.path.join(REPO, 'crates/oq3_parser/src/syntax_kind/syntax_kind_enum.rs')).read()
+    rows = []
+    for v in variants:
+        for suf in ('_TY', '_KW'):
+            if _re.search(r'\b%s%s\b' % (v.upper(), suf), sk):
+                rows.append((v.upper() + suf, v))
+                break
+    U.n_type_keywords = len(rows)
+    tab = ' else '.join('if k == SyntaxKind::%s { ScalarTypeKind::%s }' % r_ for r_ in rows) + ' else { ScalarTypeKind::None }'
+    U.raw('/// the scalar type a type keyword stands for (generated from the variant names of ScalarTypeKind and SyntaxKind)\npub open spec fn kind_of_type_token(k: SyntaxKind) -> ScalarTypeKind { %s }\n' % tab)
+    tf.impl('ast::ScalarType', [
+        ('token', dict(H, ret='r', trusted=True, note='children_with_tokens / find / into_token: the first non-trivia token of the node', spec='ensures r.sp_kind() == self.sp_type_token(),')),
+        ('kind', dict(H, ret='r', spec='ensures r == kind_of_type_token(self.sp_type_token()),      //@C09,C05:type-keyword-table')),
+    ])
+    U.raw('impl ScalarType { pub uninterp spec fn sp_type_token(&self) -> SyntaxKind; }\n')
     U.assumed_parser = ['IF_STMT children: condition expression (not a block), then-body, optional else-body (if_shape)',
                         'WHILE_STMT children: condition expression (not a block), body (while_shape)',
                         'FOR_STMT children: type, loop variable, iterable, body (for_shape)',
